@@ -4,6 +4,7 @@
    round-half-even on round_value decimals; eps nd = half a unit of the last decimal. *)
 From Coq Require Import ZArith List String Bool Reals.
 From Flocq Require Import Core.
+From Hexital Require Import Base.Prelude Base.Num Model.Candle Model.Manager Model.Readings Model.Engine Proofs.StructMore.
 From Hexital Require Import Base.Prelude Base.Num Model.Candle Inst.RealInst Spec.Steppers
   Proofs.SpecGeneric Proofs.SpecReal Proofs.SpecMore.
 Import ListNotations.
@@ -92,3 +93,14 @@ Theorem C04_wma_definition :
     Ok (@VNum ROps (rnd10 nd (wma_weighted p (push ROps p x (s_buf ROps s)) / (IZR (p * (p + 1)) / 2))), s').
 Proof. exact wma_definition. Qed.
 Print Assumptions C04_wma_definition.
+
+(* HMA: the series handed to the final WMA(sqrt period) is 2 * WMA(period / 2) - WMA(period) *)
+Theorem C04_hma_raw_series :
+  forall (I : ind ROps) rec (period : Z) (input : String.string) (st st' : store ROps) i v (w wh : R),
+  i_kind ROps I = K_HMA period input -> calc_reading ROps rec I st i = Ok (v, st') ->
+  reading ROps st (String.append (i_name ROps I) "_WMA") i = Ok (@VNum ROps w) ->
+  reading ROps st (String.append (i_name ROps I) "_WMAh") i = Ok (@VNum ROps wh) ->
+  exists st1, managed_set ROps rec I "raw_HMA" (@VNum ROps (2 * wh - w)) i st = Ok st1 /\
+              reading ROps st1 (String.append (i_name ROps I) "_HMAs") i = Ok v /\ st' = st1.
+Proof. exact hma_raw. Qed.
+Print Assumptions C04_hma_raw_series.
